@@ -185,8 +185,15 @@ unsigned long strtoul(const char*, char**, int);
 uint64_t strtoull(uint8_t* s, uint8_t** end, uint32_t base) { return strtoul((const char*)s, (char**)end, (int)base); }
 #else
 uint8_t* X___errno_location(void);
+/* this stub exists only next to the generated C (the real build calls libc), so a passing check must not appear in the
+ * native assertion log that translation validation compares */
+#ifdef VERIF_CBMC
+#define ASSERT_GEN_ONLY(c, msg) ASSERT(c, msg)
+#else
+#define ASSERT_GEN_ONLY(c, msg) do { if (!(c)) ASSERT(0, msg); } while (0)
+#endif
 uint64_t X_strtoull(uint8_t* s, uint8_t** end, uint32_t base) {
-  ASSERT(base == 10, "UNMODELLED strtoull base");
+  ASSERT_GEN_ONLY(base == 10, "UNMODELLED strtoull base");
   uint32_t i = 0; int neg = 0;
   while (s[i] == ' ' || (s[i] >= 9 && s[i] <= 13)) i++;
   if (s[i] == '+' || s[i] == '-') { neg = s[i] == '-'; i++; }
